@@ -149,6 +149,7 @@ func checkC10(w *World, r *Report) {
 	r.floor("block-definition presence tests on render paths", n, 3)
 
 	checkParentCallContext(w, r)
+	checkParentRendersNow(w, r)
 	checkOverrideLookup(w, r)
 	checkResolvesThroughLoad(w, r, "R10.5", []string{"ExtendsNode"}, "a parent remembered from an earlier render is used although the parent name is an expression (or the engine would reload it): the child is laid out in the wrong parent")
 
@@ -366,6 +367,75 @@ func checkParentCallContext(w *World, r *Report) {
 		}
 	}
 	r.Counts["parent() render sites"] = n
+}
+
+// checkParentRendersNow (R10.6): parent() yields what the inherited body renders *now*, with the
+// variables of this moment.  In the function that renders a body taken from parentBlocks, no
+// successful return hands back a value read from a field of a RenderContext (a remembered
+// earlier rendering): two calls in one block, or a call inside a loop, must each see the
+// variables as they are.
+func checkParentRendersNow(w *World, r *Report) {
+	n := 0
+	for _, fn := range w.pkgFuncs() {
+		looksUp := false
+		instrsOf(fn, func(in ssa.Instruction) {
+			if lk, ok := in.(*ssa.Lookup); ok {
+				if _, ok := fieldLoad(lk.X, "RenderContext", "parentBlocks"); ok {
+					looksUp = true
+				}
+			}
+		})
+		ei := errResultIndex(fn.Signature)
+		if !looksUp || ei < 0 {
+			continue
+		}
+		instrsOf(fn, func(in ssa.Instruction) {
+			ret, ok := in.(*ssa.Return)
+			if !ok {
+				return
+			}
+			res := retResults(ret)
+			if ei >= len(res) || !isNilConst(res[ei]) || len(res) < 2 {
+				return
+			}
+			n++
+			construct := "parent() returns what it rendered in this call"
+			seen := map[ssa.Value]bool{}
+			var memo func(v ssa.Value, d int) string
+			memo = func(v ssa.Value, d int) string {
+				if seen[v] || d > 8 {
+					return ""
+				}
+				seen[v] = true
+				switch x := v.(type) {
+				case *ssa.MakeInterface:
+					return memo(x.X, d+1)
+				case *ssa.Phi:
+					for _, e := range x.Edges {
+						if m := memo(e, d+1); m != "" {
+							return m
+						}
+					}
+				case *ssa.UnOp:
+					if fa, ok := x.X.(*ssa.FieldAddr); ok {
+						if tn, f := fieldOfAddr(fa); tn == "RenderContext" {
+							return "RenderContext." + f
+						}
+					}
+					if u := unspill(x); u != ssa.Value(x) {
+						return memo(u, d+1)
+					}
+				}
+				return ""
+			}
+			if m := memo(res[0], 0); m != "" {
+				r.bad("R10.6", ssaName(fn), construct, w.posOf(ret.Pos()), "a successful return hands back the value of "+m+" instead of what the inherited body renders in this call: a second parent() in the same block, or one inside a loop, repeats the first rendering although variables have changed in between")
+			} else {
+				r.ok("R10.6", ssaName(fn), construct, w.posOf(ret.Pos()), "the result is not read from a field of the render context", true)
+			}
+		})
+	}
+	r.Counts["successful returns of the parent() renderer"] = n
 }
 
 // okVarOfBlockLookup: is o the comma-ok variable of a lookup in a block-body map in fd?
